@@ -66,7 +66,7 @@ class HyperSpec(Spec):
         self.LOW = HyperRAMInterface.LOW_LATENCY_CLOCKS
         self.HIGH = HyperRAMInterface.HIGH_LATENCY_CLOCKS
         self.clk_sat = 3 + self.HIGH + 2
-        self.time_budget = 34 if tier == "quick" else 840
+        self.time_budget = 240 if tier == "quick" else 840
         self.words = cfg["words"]
         starts = []
         for ai in range(len(cfg["addrs"])):
